@@ -26,8 +26,9 @@ cp /verif/known_findings.json $BOX/verif/
 export VERIF_DIR=$BOX/verif CARGO_NET_OFFLINE=true
 ulimit -v 30000000   # a patch must not be able to exhaust memory (e.g. a compiler blow-up)
 for p in $PROFILES; do
-  if [ $p = rel ]; then ( cd $BOX/sim && CARGO_TARGET_DIR=target/rel timeout 900 cargo build --release --offline --quiet 2>&1 | grep -E "^error" -A8 | head -30 ); BIN=$BOX/sim/target/rel/release/ohsim
-  else ( cd $BOX/sim && CARGO_TARGET_DIR=target/dbg timeout 900 cargo build --offline --quiet 2>&1 | grep -E "^error" -A8 | head -30 ); BIN=$BOX/sim/target/dbg/debug/ohsim; fi
+  if [ $p = rel ]; then BIN=$BOX/sim/target/rel/release/ohsim; rm -f $BIN; ( cd $BOX/sim && CARGO_TARGET_DIR=target/rel timeout 900 cargo build --release --offline --quiet 2>&1 | grep -E "^error" -A8 | head -30 )
+  else BIN=$BOX/sim/target/dbg/debug/ohsim; rm -f $BIN; ( cd $BOX/sim && CARGO_TARGET_DIR=target/dbg timeout 900 cargo build --offline --quiet 2>&1 | grep -E "^error" -A8 | head -30 ); fi
+  # never run a stale binary: the binary is removed before the build, so it only exists if this build succeeded
   [ -x $BIN ] || { echo "BUILD FAILED ($p)"; continue; }
   for id in "$@"; do
     out="$(timeout 1200 $BIN check $id --tier $TIER --part-only 2>&1)"; rc=$?
